@@ -45,6 +45,8 @@ class Target:
     def __init__(self, dim: int, rng, *, linear: bool = False) -> None:
         self.dim = dim
         self.A, _, _ = random_spd(rng, dim, 0.5, 2.0)
+        if linear == "aniso":  # strongly anisotropic Gaussian: scales 1, 0.4, 0.4^2, ...
+            self.A = np.diag([1.0 / (0.4**i) ** 2 for i in range(dim)])
         self.c = np.zeros(dim) if linear else rng.uniform(0.05, 0.5, dim)
         self.kappa = 0.0 if linear else 1.0
         self.w = rng.standard_normal(dim) * 0.7
@@ -317,7 +319,7 @@ class Model:
         self.log: list | None = None  # set to [] to record (name, arg bytes)
         self.fault = None  # callable(name, call_index, out) -> out
         self.in_transition = False
-        self.target = Target(dim, rng, linear=bool(spec.get("linear", False)))
+        self.target = Target(dim, rng, linear=spec.get("linear", False))
         tg = self.target
         self.constraint = None
         self.metric_param = None
